@@ -18,7 +18,8 @@ func init() {
 		decided: "every SyntaxError / RuntimeError value is built in one of three funnel functions, each of which fills Line, Col and SrcLine from the three results of one GetLineAndCol call on the lexer that owns the program text, unmodified; the offset / token handed to a funnel is derived from the node being evaluated, the parser's current token or the lexer's cursor — never a constant or a zero token; synthetic tokens copy the position of the real operator; no lexical error is dropped by the parser (a dropped one is reported later from a stale cursor); the CLI renders exactly the fields of the error it was given." +
 			" No err.Error() is applied to an error that already carries a position (no re-positioning at another node); on every path to the `unexpected character` error exactly one byte has been consumed since the token start, so cursor-1 is that byte." +
 			" GetLineAndCol compares the position with every byte offset of the text (not with rune starts)." +
-			" A lexical error is positioned at the token's first byte or the byte just consumed; a parser error whose test looks only at the consumed token is not positioned at the cursor.",
+			" A lexical error is positioned at the token's first byte or the byte just consumed; a parser error whose test looks only at the consumed token is not positioned at the cursor." +
+			" The parser's cursor points to freshly allocated tokens only.",
 		notDecided: "that GetLineAndCol returns the right line / column / text for every byte offset is decided only as a shape oracle of its one-scan algorithm (R7: every byte offset is compared with the position, which is what the defect named in the property's why_tests_cant violated; R8: line counter, line start, column and quoted text are updated as the oracle says); a different algorithm is UNDECIDED. Which token a node's representative token is (ast.go Token methods) is not decided.",
 	})
 }
